@@ -283,3 +283,11 @@ Definition pad_is_always_exhaustive (rank : nat) (pv se : option Z) : bool :=
   | Some e => match static_padded_stride rank pv se with Some v => e =? v | None => false end
   | None => false
   end.
+
+(* ---- mdspan observers (mdspan.hpp) ---------------------------------------------------------------- *)
+(* __size: (e_0 * (e_1 * (... * (e_{R-1} * size_t(1))))) evaluated in size_t, returned as size_type *)
+Fixpoint fold_times_right_u64 (es : list Z) : Z :=
+  match es with [] => 1 | e :: es' => wrap U64 (wrap U64 e * fold_times_right_u64 es') end.
+Definition size_impl (t : ity) (es : list Z) : Z := wrap (unsigned_of t) (fold_times_right_u64 es).
+(* __empty: rank() > 0 && (extent(0) == 0 || ...) *)
+Definition empty_impl (es : list Z) : bool := negb (Nat.eqb (length es) 0) && existsb (fun e => e =? 0) es.
